@@ -334,8 +334,11 @@ class DSDLDefinition(ReadableDSDLFile):
     @property
     def text(self) -> str:
         if self._text is None:
-            with open(self._file_path) as f:
-                self._text = str(f.read())
+            try:
+                with open(self._file_path) as f:
+                    self._text = str(f.read())
+            except UnicodeDecodeError as ex:
+                raise InvalidDefinitionError(f"The file is not a valid text file: {ex}", self._file_path) from None
         return self._text
 
     @property
